@@ -795,6 +795,35 @@ func c09Programs(s *sim.Sim, p *sim.Params) {
 }
 `, base)
 	}
+	// many blocks of one request, each recursing on its own (every one of them, alone, stays far
+	// below the evaluator's depth limit): how many of them overlap is the scheduler's business
+	fanBlocks, fanDepth := 6+s.Choose(sim.SWork, 10), []int{20, 45, 70}[s.Choose(sim.SWork, 3)]
+	if interp {
+		extra += fmt.Sprintf(`
+! dive(n: int): int {
+  if n <= 0 {
+    > 0
+  }
+  > 1 + dive(n - 1)
+}
+
+@ GET /fan {
+  $ fs = []
+  for x in [%s] {
+    $ f = async {
+      > dive(%d) + x
+    }
+    fs = fs + [f]
+  }
+  $ total = 0
+  for g in fs {
+    $ r = await g
+    total = total + r
+  }
+  > {route: "fan", total: total}
+}
+`, strings.TrimSuffix(strings.Repeat("1, ", fanBlocks), ", "), fanDepth)
+	}
 	sv, err := simBuildServer(pg.src+extra, interp)
 	if err != nil {
 		// the generator must only produce loadable programs; treat as infrastructure trouble
@@ -833,6 +862,13 @@ func c09Programs(s *sim.Sim, p *sim.Params) {
 			if tw.status != 200 || !strings.Contains(tw.body, want) || !strings.Contains(tw.body, want2) {
 				s.Fail("oracle", "block-value:awaited-twice", fmt.Sprintf("%s: a future awaited twice, the first result changed in between, answered %d %s; want first=%d second=%d", when, tw.status, strings.TrimSpace(tw.body), base+100, base))
 			}
+		}
+		if interp {
+			fan := sv.do(simReq{path: "/fan", remote: "10.0.0.2:1"})
+			if want := fmt.Sprintf(`"total":%d`, fanBlocks*(fanDepth+1)); fan.status != 200 || !strings.Contains(fan.body, want) {
+				s.Fail("oracle", "block-value:fan-out", fmt.Sprintf("%s: %d blocks of one request, each computing dive(%d) + 1 (a recursion %d deep), were awaited in turn and the route answered %d %s; want %s\n%s", when, fanBlocks, fanDepth, fanDepth, fan.status, strings.TrimSpace(fan.body), want, simLogTail()))
+			}
+			s.Probe("fan-out-checked")
 		}
 		s.Probe("companion-routes-checked")
 	}
